@@ -252,6 +252,16 @@ class MonitorProxy:
             if name == 'poll_for_result':
                 return real(*a, **k)       # blocks inside; not a protocol step
             r = real(*a, **k)
+            # a download that became done through this call although it was not notify_done: judged at this moment
+            if name != 'notify_done':
+                for t in range(len(rig.final)):
+                    if t not in rig.done_snap:
+                        try:
+                            early = rig.monitor.is_done(t)
+                        except Exception:   # noqa: not registered yet
+                            early = False
+                        if early:
+                            rig.done_snap[t] = dict(rig.snapshot(t), made_done_by=name)
             self._log(name, role, a, r)
             return r
         return call
@@ -338,8 +348,13 @@ def gen_scenario(rng, tier):
         for t in transfers:
             if not (t.get('head_fails') or t.get('alloc_fails')):
                 t['rename_fails'] = True
-    return {'cfg': cfg, 'transfers': transfers, 'user': user, 'after_steps': rng.choice([0, 1, 3, 6, 10, 20, 40, 80]),
-            'cancel_transfer': rng.randrange(len(transfers)), 'mode': rng.choice(['uniform', 'sticky', 'pct', 'stall']),
+    after = rng.choice([0, 1, 3, 6, 10, 20, 40, 80])
+    cancel_transfer = rng.randrange(len(transfers))
+    if user == 'cancel' and rng.random() < 0.6:
+        after = rng.choice([0, 0, 0, 1, 2])     # a cancel before the submitter has sized the download:
+        cancel_transfer = len(transfers) - 1    # the request submitted last is the one it reaches last
+    return {'cfg': cfg, 'transfers': transfers, 'user': user, 'after_steps': after,
+            'cancel_transfer': cancel_transfer, 'mode': rng.choice(['uniform', 'sticky', 'pct', 'stall']),
             'sched_seed': rng.randrange(1 << 30), 'collect': rng.random() < 0.6}
 
 
@@ -530,7 +545,7 @@ def corr(seed, tier):
     res = CorrResult('procpool-trace')
     rng = rng_for(seed, 'procpool')
     runs = []
-    for _ in range(150 if tier == 'quick' else 4000):
+    for _ in range(400 if tier == 'quick' else 4000):
         sc = gen_scenario(rng, tier)
         out = run_scenario(sc)
         rig = out['rig']
@@ -585,7 +600,7 @@ def corr(seed, tier):
 def oracle(seed, tier):
     res = OracleResult('C19')
     rng = rng_for(seed, 'procpool-oracle')
-    for _ in range(300 if tier == 'quick' else 12000):
+    for _ in range(800 if tier == 'quick' else 12000):
         sc = gen_scenario(rng, tier)
         out = run_scenario(sc)
         res.evaluations += 1
